@@ -600,8 +600,8 @@ func checkSaltedHash(c *Ctx, rule string) {
 		}
 		stores := storesToField(fn, "hashedPrivPassphrase")
 		for _, st := range stores {
-			// find Sum512 calls feeding the stored value
-			sl := &Slicer{P: p}
+			// find Sum512 calls feeding the stored value (directly, or inside a same-package helper whose result is stored)
+			sl := &Slicer{P: p, ThroughReturns: func(callee *ssa.Function) bool { return fnPkgPath(callee) == fnPkgPath(fn) }}
 			var sums []*ssa.Call
 			for _, o := range sl.Origins(st.Val) {
 				if call, ok := o.(*ssa.Call); ok && calleeShort(&call.Call) == "Sum512" {
@@ -619,7 +619,44 @@ func checkSaltedHash(c *Ctx, rule string) {
 					continue
 				}
 				saltOK, passOK := false, false
-				if ss, ok := ap.Call.Args[0].(*ssa.Slice); ok {
+				saltArg, passArg := ap.Call.Args[0], ap.Call.Args[1]
+				if sum.Parent() != fn {
+					// the hash is computed in a helper: map its parameters back to the arguments at the call site in fn
+					h := sum.Parent()
+					var site *ssa.Call
+					for _, cs := range p.callers(h) {
+						if c2, ok := cs.(*ssa.Call); ok && c2.Parent() == fn {
+							site = c2
+						}
+					}
+					subst := func(v ssa.Value) ssa.Value {
+						if site == nil {
+							return v
+						}
+						root := v
+						if sl2, ok := v.(*ssa.Slice); ok {
+							root = sl2.X
+						}
+						if u, ok := root.(*ssa.UnOp); ok {
+							root = u.X
+						}
+						if prm, ok := root.(*ssa.Parameter); ok {
+							if i := paramIndex(h, prm); i >= 0 && i < len(site.Call.Args) {
+								return site.Call.Args[i]
+							}
+						}
+						return v
+					}
+					passArg = subst(passArg)
+					if s0, ok := saltArg.(*ssa.Slice); ok {
+						if fa, ok := s0.X.(*ssa.FieldAddr); ok {
+							// m.privPassphraseSalt[:] inside a method helper: the receiver is fn's manager
+							_, f := fieldAddrName(fa)
+							saltOK = f == "privPassphraseSalt" && len(storesToField(fn, "privPassphraseSalt")) == 0
+						}
+					}
+				}
+				if ss, ok := saltArg.(*ssa.Slice); ok && !saltOK {
 					switch x := ss.X.(type) {
 					case *ssa.FieldAddr:
 						_, f := fieldAddrName(x)
@@ -636,7 +673,7 @@ func checkSaltedHash(c *Ctx, rule string) {
 				}
 				// identify the passphrase variable: a parameter, or the spill slot of an address-taken parameter
 				var passVar ssa.Value
-				switch x := ap.Call.Args[1].(type) {
+				switch x := passArg.(type) {
 				case *ssa.Parameter:
 					passVar = x
 				case *ssa.UnOp:
